@@ -110,8 +110,12 @@ def entry_job(text, mode, expect_fail, tag, want_mc=False, enduse=1, namev=0):
             # every other case: a different input with the same file name in another directory goes through the same client
             # before the first result's report file is read
             sibling = (text + '\nPlant Lifetime, 23\nUtilization Factor, 0.77\n') if namev % 2 == 0 else None
-            cinfo = {}
-            crep, cerr = _client_report(inp, sibling, cinfo)
+            # the other cases: the input file is edited in place afterwards (override lines appended: the last occurrence
+            # of a parameter governs) and the same default (caching) client is asked again for the same path - alternately
+            # with the same parameters object and with a new one
+            edited = (text.rstrip('\n') + '\nPlant Lifetime, 23\nUtilization Factor, 0.77\n') if namev % 2 == 1 else None
+            cinfo = {'same_object': namev % 4 == 1}
+            crep, cerr = _client_report(inp, sibling, cinfo, edited)
             if crep is None:
                 mon.bad('cli-equals-client', mechanism='C20/client-fails-where-cli-succeeds', error=cerr, **wit)
             else:
@@ -122,6 +126,25 @@ def entry_job(text, mode, expect_fail, tag, want_mc=False, enduse=1, namev=0):
                 mon.check('cli-equals-client', a == c, mechanism=mech, diff=_diff(a, c), sibling=sibling is not None, **wit)
                 if sibling is not None:
                     mon.ok('client-report-file-survives-a-same-named-input')
+                if edited is not None:
+                    d2 = runner.run_text(edited, want_snap=False)
+                    rep2, err2 = cinfo.get('edited_report'), cinfo.get('edited_error')
+                    how = 'same-parameters-object' if cinfo['same_object'] else 'new-parameters-object'
+                    if d2.ok and rep2 is not None:
+                        x, y = runner.norm_report(d2.report), runner.norm_report(rep2)
+                        stale = x != y and y == c
+                        mon.check('client-equals-direct-pipeline-after-the-input-file-is-edited', x == y,
+                                  mechanism='C20/client-answers-an-edited-input-file-with-' + ('the-report-of-its-previous-content' if stale else 'a-different-report') + ':' + how,
+                                  diff=_diff(x, y), **wit)
+                    elif d2.ok:
+                        mon.bad('client-equals-direct-pipeline-after-the-input-file-is-edited',
+                                mechanism='C20/client-fails-on-an-edited-input-file-where-the-direct-pipeline-succeeds:' + how, error=err2, **wit)
+                    elif rep2 is not None:
+                        mon.bad('client-equals-direct-pipeline-after-the-input-file-is-edited',
+                                mechanism='C20/client-returns-a-report-for-an-edited-input-file-on-which-the-direct-pipeline-fails:' + how,
+                                error=d2.exc_type, **wit)
+                    else:
+                        mon.note('edited-input-fails-on-both-entry-points')
             if want_mc:
                 outs = MC_OUTPUTS[enduse]
                 st = {'program': 'GEOPHIRES', 'inputs': [], 'outputs': outs, 'iterations': 1, 'failure': 0.0,
@@ -160,7 +183,7 @@ def _diff(a, b):
     return {'len_cli': len(la), 'len_other': len(lb)}
 
 
-def _client_report(path, sibling_text=None, info=None):
+def _client_report(path, sibling_text=None, info=None, edited_text=None):
     """Report file the client hands back for the input at `path`.  With `sibling_text`, a second, different input with the SAME
     file name in another directory is run through the client afterwards, and the first result's report file is read only
     then: it must still be the report of its own input."""
@@ -169,8 +192,25 @@ def _client_report(path, sibling_text=None, info=None):
     logging.disable(logging.CRITICAL)
     try:
         with contextlib.redirect_stdout(io.StringIO()), contextlib.redirect_stderr(io.StringIO()):
-            client = GeophiresXClient(enable_caching=False)
-            r = client.get_geophires_result(GeophiresInputParameters(from_file_path=Path(path)))
+            client = GeophiresXClient()                      # as a user gets it: result caching is on by default
+            params = GeophiresInputParameters(from_file_path=Path(path))
+            r = client.get_geophires_result(params)
+            if edited_text is not None:
+                with open(r.output_file_path, encoding='utf-8') as f:
+                    first_report = f.read()
+                with open(path, 'w', encoding='utf-8') as f:
+                    f.write(edited_text)
+                p2 = params if (info or {}).get('same_object') else GeophiresInputParameters(from_file_path=Path(path))
+                try:
+                    r2 = client.get_geophires_result(p2)
+                    with open(r2.output_file_path, encoding='utf-8') as f:
+                        info['edited_report'] = f.read()
+                except Exception as ex2:  # noqa
+                    info['edited_error'] = f'{type(ex2).__name__}: {str(ex2)[:200]}'
+                for q in (r.output_file_path, str(r.output_file_path)[:-4] + '.json'):
+                    with contextlib.suppress(OSError):
+                        os.remove(q)
+                return first_report, None
             if sibling_text is not None:
                 sib_dir = os.path.join(os.path.dirname(os.path.dirname(path)), 'other-project')
                 os.makedirs(sib_dir, exist_ok=True)
@@ -306,7 +346,8 @@ def run(ctx):
             ctx.sample({'mode': a['mode'], 'tag': a['tag'], 'exit_status': r.value.get('rc'), 'simulation_fails': r.value.get('should_fail')}, limit=5)
     ctx.required.update({'success-exits-zero': 25, 'report-at-requested-path': 25, 'json-at-requested-path': 25,
                          'cli-equals-direct-pipeline': 25, 'cli-equals-client': 25, 'failure-exits-nonzero': 10,
-                         'failure-writes-no-report': 10, 'mc-embedded-run-equals-cli': 4})
+                         'failure-writes-no-report': 10, 'mc-embedded-run-equals-cli': 4,
+                         'client-equals-direct-pipeline-after-the-input-file-is-edited': 8})
     ctx.rule = ('inputs from the fast configuration families and shipped examples (succeeding) and failing inputs (out-of-range '
                 'value, non-member option, zero lifetime, missing input file, nested non-existent output directory, a calculation-stage '
                 'failure, add-ons with two construction years, a report-writer failure) x output argument {none, relative, relative with sub-directory, absolute, nested '
